@@ -195,11 +195,11 @@ def run_property(pid, tier, seed, spec):
     # histories at a scale the extracted model cannot follow (tens of thousands of nodes): the crate alone, all oracles on,
     # release and debug builds (overflow checks); an oracle failure of this property or a crash is a concrete failing input
     sitems = list(R.scale_histories(pid, tier, seed))
-    sres = []
-    for prof in ("release", "debug"):
-        part, _ = H.pmap_until(lambda it: dict(run_bdd_history(it, pid, wdir, with_model=False, profile=prof), profile=prof), sitems,
-                               lambda r: bool(r["oracle"]) or r["impl_status"] != "ok", enough=2)
-        sres += part
+    # (largest first, both builds side by side)
+    spairs = sorted([(it, prof) for it in sitems for prof in ("release", "debug")], key=lambda x: -len(x[0][1]))
+    spairs = [((it[0] + "-" + prof, it[1], it[2]), prof) for (it, prof) in spairs]
+    sres, _ = H.pmap_until(lambda x: dict(run_bdd_history(x[0], pid, wdir, with_model=False, profile=x[1]), profile=x[1]), spairs,
+                           lambda r: bool(r["oracle"]) or r["impl_status"] != "ok", enough=2)
     cov["scale_histories"] = {"histories": len(sitems), "profiles": ["release", "debug"],
                               "lines": sum(len(ls) for (_, ls, _) in sitems), "failing": sum(1 for r in sres if r["oracle"] or r["impl_status"] != "ok")}
     for k, r in enumerate([r for r in sres if r["oracle"] or r["impl_status"] != "ok"][:2]):
